@@ -982,3 +982,348 @@ pub fn mutate(rng: &mut StdRng, v: &mut SV) {
 		}
 	}
 }
+
+// ---------------------------------------------------------------------------------------------
+// Datum bytes with arbitrary legal layouts (blocks, negative counts, non-minimal varints)
+
+pub fn zigzag(v: i64) -> u64 {
+	((v << 1) ^ (v >> 63)) as u64
+}
+pub fn varint_u(mut n: u64, out: &mut Vec<u8>) {
+	while n >= 0x80 {
+		out.push(0x80 | (n as u8));
+		n >>= 7;
+	}
+	out.push(n as u8);
+}
+
+pub struct DatumGen<'a> {
+	pub rng: &'a mut StdRng,
+	pub schema: &'a RawSchema,
+	/// split arrays/maps into several blocks, use negative counts with byte sizes
+	pub fancy_layout: bool,
+	/// pad varints with redundant continuation bytes (still ≤ 10 bytes)
+	pub nonminimal: f64,
+}
+
+impl<'a> DatumGen<'a> {
+	pub fn long(&mut self, v: i64, out: &mut Vec<u8>) {
+		let start = out.len();
+		varint_u(zigzag(v), out);
+		if self.nonminimal > 0.0 && self.rng.gen_bool(self.nonminimal) {
+			let len = out.len() - start;
+			let max_extra = 10usize.saturating_sub(len).min(if v >= i32::MIN as i64 && v <= i32::MAX as i64 { 6 } else { 3 });
+			if max_extra > 0 {
+				let extra = self.rng.gen_range(1..=max_extra);
+				let last = out.len() - 1;
+				out[last] |= 0x80;
+				for i in 0..extra {
+					out.push(if i + 1 == extra { 0x00 } else { 0x80 });
+				}
+			}
+		}
+	}
+
+	fn blocks(&mut self, items: Vec<Vec<u8>>, out: &mut Vec<u8>) {
+		let n = items.len();
+		if !self.fancy_layout {
+			if n > 0 {
+				self.long(n as i64, out);
+				for it in &items {
+					out.extend_from_slice(it);
+				}
+			}
+			self.long(0, out);
+			return;
+		}
+		let mut i = 0;
+		while i < n {
+			let c = self.rng.gen_range(1..=(n - i));
+			let body: Vec<u8> = items[i..i + c].concat();
+			if self.rng.gen_bool(0.5) {
+				self.long(-(c as i64), out);
+				self.long(body.len() as i64, out);
+			} else {
+				self.long(c as i64, out);
+			}
+			out.extend_from_slice(&body);
+			i += c;
+		}
+		self.long(0, out);
+	}
+
+	pub fn gen(&mut self, idx: usize, depth: usize, out: &mut Vec<u8>) {
+		let kind = kind_of(&self.schema[idx]);
+		match kind {
+			Kind::Null => {}
+			Kind::Boolean => out.push(self.rng.gen_range(0..2)),
+			Kind::Int | Kind::Date | Kind::TimeMillis => {
+				let v = gen_int_in(self.rng, i32::MIN as i128, i32::MAX as i128) as i64;
+				self.long(v, out)
+			}
+			Kind::Long | Kind::TimeMicros | Kind::TimestampMillis | Kind::TimestampMicros => {
+				let v = gen_int_in(self.rng, i64::MIN as i128, i64::MAX as i128) as i64;
+				self.long(v, out)
+			}
+			Kind::Float => {
+				let b: u32 = if self.rng.gen_bool(0.5) { *F32_POOL.choose(self.rng).unwrap() } else { self.rng.gen() };
+				out.extend_from_slice(&b.to_le_bytes())
+			}
+			Kind::Double => {
+				let b: u64 = if self.rng.gen_bool(0.5) { *F64_POOL.choose(self.rng).unwrap() } else { self.rng.gen() };
+				out.extend_from_slice(&b.to_le_bytes())
+			}
+			Kind::Bytes => {
+				let b = gen_bytes(self.rng);
+				self.long(b.len() as i64, out);
+				out.extend_from_slice(&b)
+			}
+			Kind::String | Kind::Uuid => {
+				let s = gen_utf8(self.rng);
+				self.long(s.len() as i64, out);
+				out.extend_from_slice(s.as_bytes())
+			}
+			Kind::Array(items) => {
+				let n = if depth > 5 { 0 } else { *[0usize, 0, 1, 2, 3, 5].choose(self.rng).unwrap() };
+				let its: Vec<Vec<u8>> = (0..n)
+					.map(|_| {
+						let mut b = vec![];
+						self.gen(items, depth + 1, &mut b);
+						b
+					})
+					.collect();
+				self.blocks(its, out)
+			}
+			Kind::Map(values) => {
+				let n = if depth > 5 { 0 } else { *[0usize, 0, 1, 2, 3].choose(self.rng).unwrap() };
+				let its: Vec<Vec<u8>> = (0..n)
+					.map(|i| {
+						let mut b = vec![];
+						let k = if self.rng.gen_bool(0.7) { format!("k{i}") } else { gen_utf8(self.rng) };
+						self.long(k.len() as i64, &mut b);
+						b.extend_from_slice(k.as_bytes());
+						self.gen(values, depth + 1, &mut b);
+						b
+					})
+					.collect();
+				self.blocks(its, out)
+			}
+			Kind::Union(vs) => {
+				if vs.is_empty() {
+					self.long(0, out);
+					return;
+				}
+				let null_branch = vs.iter().position(|&b| kind_of(&self.schema[b]) == Kind::Null);
+				let b = if depth > 5 && null_branch.is_some() { null_branch.unwrap() } else { self.rng.gen_range(0..vs.len()) };
+				self.long(b as i64, out);
+				self.gen(vs[b], depth + 1, out)
+			}
+			Kind::Record(_, fields) => {
+				for (_, k) in &fields {
+					self.gen(*k, depth + 1, out);
+				}
+			}
+			Kind::Enum(_, syms) => {
+				let i = if syms.is_empty() { 0 } else { self.rng.gen_range(0..syms.len()) };
+				self.long(i as i64, out)
+			}
+			Kind::Fixed(_, size) => {
+				for _ in 0..size {
+					out.push(self.rng.gen());
+				}
+			}
+			Kind::Decimal(_, fixed, _) => {
+				let v = gen_int_in(self.rng, -(1i128 << 100), 1i128 << 100);
+				match fixed {
+					None => {
+						let be = v.to_be_bytes();
+						// minimal two's complement, sometimes with redundant sign bytes
+						let mut start = 0;
+						while start < 15
+							&& ((be[start] == 0 && be[start + 1] & 0x80 == 0) || (be[start] == 0xff && be[start + 1] & 0x80 != 0))
+						{
+							start += 1;
+						}
+						if self.rng.gen_bool(0.2) {
+							start = start.saturating_sub(self.rng.gen_range(0..3));
+						}
+						if v == 0 && self.rng.gen_bool(0.2) {
+							start = 16;
+						}
+						self.long((16 - start) as i64, out);
+						out.extend_from_slice(&be[start..])
+					}
+					Some(size) => {
+						let sign = if v < 0 { 0xffu8 } else { 0 };
+						let be = v.to_be_bytes();
+						if size >= 16 {
+							for _ in 16..size {
+								out.push(sign);
+							}
+							out.extend_from_slice(&be)
+						} else {
+							out.extend_from_slice(&be[16 - size..])
+						}
+					}
+				}
+			}
+			Kind::BigDecimal => {
+				let v = gen_int_in(self.rng, -(1i128 << 95), 1i128 << 95);
+				let be = v.to_be_bytes();
+				let mut start = 0;
+				while start < 15
+					&& ((be[start] == 0 && be[start + 1] & 0x80 == 0) || (be[start] == 0xff && be[start + 1] & 0x80 != 0))
+				{
+					start += 1;
+				}
+				let mut inner = vec![];
+				self.long((16 - start) as i64, &mut inner);
+				inner.extend_from_slice(&be[start..]);
+				let scale = *[0i64, 0, 1, 2, 5, 28, 29].choose(self.rng).unwrap();
+				self.long(scale, &mut inner);
+				self.long(inner.len() as i64, out);
+				out.extend_from_slice(&inner)
+			}
+			Kind::Duration => {
+				for _ in 0..3 {
+					let v: u32 = *[0u32, 1, 255, 256, 65536, u32::MAX, 12345678].choose(self.rng).unwrap();
+					out.extend_from_slice(&v.to_le_bytes());
+				}
+			}
+		}
+	}
+}
+
+/// A target shaped like the schema (what a derived `Deserialize` would ask), with random
+/// departures: ignored sub-trees, field subsets, raw hints.
+pub fn shape_hint(rng: &mut StdRng, schema: &RawSchema, idx: usize, depth: usize, noise: f64) -> Hint {
+	if depth > 8 {
+		return Hint::Any;
+	}
+	if rng.gen_bool(noise) {
+		return match rng.gen_range(0..14) {
+			0 => Hint::Ignored,
+			1 => Hint::Any,
+			2 => Hint::U64,
+			3 => Hint::I64,
+			4 => Hint::Str,
+			5 => Hint::Bytes,
+			6 => Hint::Option(Box::new(Hint::Any)),
+			7 => Hint::Seq(Box::new(Hint::Any)),
+			8 => Hint::Tuple(rng.gen_range(0..4), Box::new(Hint::Any)),
+			9 => Hint::Identifier,
+			10 => Hint::I128,
+			11 => Hint::U128,
+			12 => Hint::Enum(vec![("Null".into(), VariantHint::Unit), ("Int".into(), VariantHint::Newtype(Hint::Any))]),
+			_ => Hint::Map(Box::new(Hint::Any), Box::new(Hint::Any)),
+		};
+	}
+	let kind = kind_of(&schema[idx]);
+	match kind {
+		Kind::Null | Kind::Boolean | Kind::Int | Kind::Float | Kind::Date | Kind::TimeMillis => Hint::Any,
+		Kind::Long | Kind::TimeMicros | Kind::TimestampMillis | Kind::TimestampMicros => {
+			if rng.gen_bool(0.5) {
+				Hint::I64
+			} else {
+				Hint::Any
+			}
+		}
+		Kind::Double => {
+			if rng.gen_bool(0.5) {
+				Hint::F64
+			} else {
+				Hint::Any
+			}
+		}
+		Kind::Bytes => [Hint::Bytes, Hint::Any, Hint::Str].choose(rng).unwrap().clone(),
+		Kind::String | Kind::Uuid => [Hint::Str, Hint::Any].choose(rng).unwrap().clone(),
+		Kind::Array(items) => {
+			let e = shape_hint(rng, schema, items, depth + 1, noise);
+			match rng.gen_range(0..5) {
+				0 => Hint::Tuple(rng.gen_range(0..4), Box::new(e)),
+				1 => Hint::Any,
+				_ => Hint::Seq(Box::new(e)),
+			}
+		}
+		Kind::Map(values) => {
+			let v = shape_hint(rng, schema, values, depth + 1, noise);
+			let k = [Hint::Str, Hint::Any, Hint::Ignored].choose(rng).unwrap().clone();
+			Hint::Map(Box::new(k), Box::new(v))
+		}
+		Kind::Union(vs) => {
+			let null_branch = vs.iter().position(|&b| kind_of(&schema[b]) == Kind::Null);
+			if vs.len() == 2 && null_branch.is_some() && rng.gen_bool(0.7) {
+				let other = vs[1 - null_branch.unwrap()];
+				return Hint::Option(Box::new(shape_hint(rng, schema, other, depth + 1, noise)));
+			}
+			match rng.gen_range(0..4) {
+				0 => Hint::Any,
+				1 if null_branch.is_some() => Hint::Option(Box::new(Hint::Any)),
+				_ => {
+					let mut variants = vec![];
+					for &b in &vs {
+						let bk = kind_of(&schema[b]);
+						let name = match &bk {
+							Kind::Record(n, _) | Kind::Enum(n, _) | Kind::Fixed(n, _) => split_name(n).1,
+							Kind::Decimal(_, _, Some(n)) => split_name(n).1,
+							k => match branch_name(k, rng) {
+								Some(n) => n,
+								None => "Duration".into(),
+							},
+						};
+						let vh = if bk == Kind::Null || rng.gen_bool(0.15) {
+							VariantHint::Unit
+						} else {
+							match rng.gen_range(0..8) {
+								0 => VariantHint::Tuple(2, Hint::Any),
+								1 => VariantHint::Struct(vec![("f0".into(), Hint::Any)]),
+								_ => VariantHint::Newtype(shape_hint(rng, schema, b, depth + 1, noise)),
+							}
+						};
+						variants.push((name, vh));
+					}
+					let e = Hint::Enum(variants);
+					if null_branch.is_some() && rng.gen_bool(0.3) {
+						Hint::Option(Box::new(e))
+					} else {
+						e
+					}
+				}
+			}
+		}
+		Kind::Record(_, fields) => {
+			let mut fs = vec![];
+			for (f, k) in &fields {
+				if rng.gen_bool(0.15) {
+					continue; // a struct lacking this field: it gets ignored
+				}
+				fs.push((f.clone(), shape_hint(rng, schema, *k, depth + 1, noise)));
+			}
+			if rng.gen_bool(0.1) {
+				fs.push(("extra".into(), Hint::Any));
+			}
+			match rng.gen_range(0..6) {
+				0 => Hint::Any,
+				1 => Hint::Map(Box::new(Hint::Any), Box::new(Hint::Any)),
+				_ => Hint::Struct(fs),
+			}
+		}
+		Kind::Enum(_, syms) => match rng.gen_range(0..4) {
+			0 => Hint::Any,
+			1 => Hint::U64,
+			2 => Hint::Str,
+			_ => Hint::Enum(syms.iter().map(|s| (s.clone(), VariantHint::Unit)).collect()),
+		},
+		Kind::Fixed(..) => [Hint::Bytes, Hint::Any, Hint::Str].choose(rng).unwrap().clone(),
+		Kind::Decimal(..) | Kind::BigDecimal => {
+			[Hint::Any, Hint::Str, Hint::I64, Hint::U64, Hint::I128, Hint::U128].choose(rng).unwrap().clone()
+		}
+		Kind::Duration => match rng.gen_range(0..5) {
+			0 => Hint::Tuple(3, Box::new(Hint::Any)),
+			1 => Hint::Seq(Box::new(Hint::Any)),
+			2 => Hint::Bytes,
+			3 => Hint::Struct(vec![("months".into(), Hint::Any), ("milliseconds".into(), Hint::Any)]),
+			_ => Hint::Any,
+		},
+	}
+}
